@@ -6,7 +6,7 @@ from ..edgecheck import decide_edges
 from .. import utilunits
 from .args import parse
 
-MODULES = ["harness.corpus.basic", "harness.corpus.configs", "harness.corpus.nameclash"]
+MODULES = ["harness.corpus.basic", "harness.corpus.configs", "harness.corpus.nameclash", "harness.corpus.dimwin"]
 
 
 def main():
